@@ -355,7 +355,18 @@ def tier_catalogue(g, w, h, others):
             cat.append({"op": "tier.insertEntry", "recv": h, "a": [g.enc_entry([e.time, lab], "P")],
                         "k": {"collisionMode": "error", "collisionReportingMode": g.pick(["silence", "warning"])},
                         "tag": "F-coll", "cat": "same-time"})
+    if ents:
+        # a label that is not a string, aimed at an existing entry, in the modes that delete before inserting
+        e = g.pick(ents)
+        bad = g.pick([None, 7, 1.5])
+        vals = [float(e.start), float(e.end), bad] if is_int else [e.time, bad]
+        for m in ("replace", "merge"):
+            cat.append({"op": "tier.insertEntry", "recv": h, "a": [{"$t": vals}],
+                        "k": {"collisionMode": m, "collisionReportingMode": "silence"}, "tag": "F-label", "cat": m})
+    cat.append({"op": "tier.insertEntry", "recv": h, "a": [None],
+                "k": {"collisionMode": g.pick(INS_MODES), "collisionReportingMode": "silence"}, "tag": "F-arity"})
     cat.append(g.step_delete(w, h, present=False))
+    cat.append({"op": "tier.deleteEntry", "recv": h, "a": [None], "tag": "F-missing"})
     # ---- copy-returning ops with fresh arguments (some deliberately invalid)
     for mk in (g.step_crop, g.step_erase, g.step_space):
         st = mk(w, h, pool)
@@ -438,6 +449,13 @@ def tg_catalogue(g, w, h, tiers, tgs, wide, fileno, files_on):
     for x in wider[:2]:
         cat.append({"op": "tg.addTier", "recv": h, "a": [H(x)],
                     "k": {"tierIndex": g.pick([None, 0, 1]), "reportingMode": "error"}, "tag": "F-span"})
+    if free:
+        cat.append({"op": "tg.addTier", "recv": h, "a": [H(g.pick(free))],
+                    "k": {"tierIndex": g.pick([1.5, "0", 2.0]), "reportingMode": g.pick(REPORT)}, "tag": "F-index"})
+    cat.append({"op": "tg.addTier", "recv": h, "a": [None], "k": {"reportingMode": g.pick(REPORT)}, "tag": "F-nontier"})
+    if names:
+        cat.append({"op": "tg.replaceTier", "recv": h, "a": [g.pick(names), g.pick([None, 7])],
+                    "k": {"reportingMode": g.pick(REPORT)}, "tag": "F-nontier"})
     cat.append({"op": "tg.removeTier", "recv": h, "a": [g.pick(absent)], "tag": "F-missing"})
     cat.append({"op": "tg.renameTier", "recv": h, "a": [g.pick(absent), g.pick(NAMES)], "tag": "F-missing"})
     if len(names) > 1:
@@ -586,6 +604,9 @@ def generate(run, rng):
             st = g.ctor_interval(w, name) if rng.random() < 0.6 else g.ctor_point(w, name, distinct=False)
         if uniform if uniform is not None else rng.random() < 0.5:
             st["a"][2], st["a"][3] = 0.0, top
+            if rng.random() < 0.12:
+                import math as _m
+                st["a"][3] = _m.nextafter(top, rng.choice([_m.inf, -_m.inf]))  # one ulp off the common span
         o = run.do(st)
         return st["out"] if (o is not None and o.ok) else None
 
